@@ -761,6 +761,33 @@ func (s *DB) getHistoricRootsAndNodes(
 			return nil, nil, err
 		}
 	}
+	// Other writers may have committed versions this tree has not merged.
+	// They are not in the graph above, but can share nodes with it.
+	current, err := s.listRoots(ctx)
+	if err != nil {
+		return nil, nil, fmt.Errorf("list roots: %w", err)
+	}
+	for _, name := range current {
+		if _, ok := rootCacheByName[name]; ok {
+			continue
+		}
+		name := name
+		root, _, err := loadRoot(ctx, s.root, name)
+		if err != nil {
+			if isNoSuchKey(err) {
+				// retired in the meantime
+				continue
+			}
+			return nil, nil, fmt.Errorf("load %s: %w", name, err)
+		}
+		kept, err := crdt.Load(ctx, s.crdt.Config, &name, *root)
+		if err != nil {
+			return nil, nil, err
+		}
+		if err := keep(kept.Mast); err != nil {
+			return nil, nil, err
+		}
+	}
 	nodes = make([]string, 0, len(candidateBlocks))
 	for k := range candidateBlocks {
 		nodes = append(nodes, k)
